@@ -167,6 +167,20 @@ CHECKS["C16"] = dict(
     technique="TLC model checking of a TLA+ transcription on a parameter grid + replay of the whole grid into the C function + TLC validation of its outputs",
 )
 
+CHECKS["C18"] = dict(
+    category="model_checking",
+    text="Crc32c.tla defines CRC-32C from the reflected polynomial 0x82F63B78 (bit-serial update, byte table derived from it, init/final XOR); TLC checks the "
+         "definition itself (check value of '123456789' = E3069283, table-driven = bit-serial for all 256 bytes on a spread of registers, split invariance). "
+         "harness/crc_probe.c then calls the real jls_crc32c of BOTH builds compiled from the working tree (default SSE4.2; -DJLS_OPTIMIZE_CRC_DISABLE "
+         "slicing-by-8) for ALL lengths 0..4096 x ALL start alignments 0..7 on seeded and single-bit contents (thorough: also zeros, ones, a second seed), "
+         "jls_crc32c_hdr of both builds on 1000 seeded headers, and dumps the 8x256 software tables; TLC walks each buffer byte by byte (one state per "
+         "byte, register derived from the polynomial) and judges every returned value, every header CRC and every table entry (Crc32cTrace.tla).",
+    design_ref="DESIGN.md section 6 C18, section 7, section 12",
+    note="Trusted: TLC + CommunityModules Bitwise. Exhaustive over lengths x alignments x builds for the contents used, not over all contents. "
+         "The ARM NEON implementation cannot be compiled on this host.",
+    technique="TLC model checking of the CRC definition + TLC trace validation of every value returned by both implementations",
+)
+
 NOT_YET = {}
 
 
